@@ -379,12 +379,18 @@ def move_scenarios(run: Run, model: PyModel) -> None:
             lines = ["# S", f"- 240101#A0 {ZID} is only mentioned here", f"  {ZID} opens a continuation line", f"- {ZID}b has a longer ZID", f"o P1 240101#A9 240105 {ZID} after another ZID", first, f"- see {ZID}", ""]
             one(f"locating a {status} item{' with a modify date' if md else ''} among look-alikes", {"src.zo": lines, "dst.zo": d0},
                 dict(zid=ZID, body=f"{md}{ZID} the real one", page="src.zo", line_no=6, priority="P2", status=None if status == "BASIC" else status), "dst.zo", None, [first], rid_src="C10.R2")
+    # ---- the requested kind: whatever the item was (a plain note, a live todo of every kind, an already closed / cancelled one), it lands as the kind asked for
+    for status, (ch, prio) in kinds.items():
+        for done in ("x", "~"):
+            first = f"{ch}{prio} {ZID} moved text"
+            one(f"a {status} item moved as '{done}'", {"src.zo": ["# S", first, "  more", "- 240101#A3 stays", ""], "dst.zo": d0},
+                dict(zid=ZID, body=f"{ZID} moved text\n  more", page="src.zo", line_no=2, priority="P2", status=None if status == "BASIC" else status), "dst.zo", done, [f"{done} {ZID} moved text", "  more"])
     for status, (ch, prio) in kinds.items():
         one(f"destination whose last block is a {status} item under a section", {"src.zo": psrc, "dst.zo": ["# D", "", "- 240101#B0 first block", "", "######## S", "", f"{ch}{prio} 240101#B1 existing", "  cont", "", "######## T", ""]},
             plain, "dst.zo", None, [f"- {ZID} moved text", "  more"])
     one("line separators and form feeds above the note in both pages", {"src.zo": ["# S", "pasted\u2028text", "form\x0cfeed\rcr", f"- {ZID} moved text", "  more", "- 240101#A3 stays", ""],
                                                                         "dst.zo": ["# D\u2028x", "\x0c", "- 240101#B1 existing", ""]}, dict(plain, line_no=4), "dst.zo", None, [f"- {ZID} moved text", "  more"])
-    run.floor("move scenarios", n, 34)
+    run.floor("move scenarios", n, 46)
 
 
 def check(run: Run) -> None:
@@ -394,6 +400,8 @@ def check(run: Run) -> None:
     run.rule("C10.R3", "tables: item-prefix tuples == NoteType values + ' '; tag sigils of the hidden-metadata helpers agree with each other and with the grammar")
     run.rule("C10.R4", "order and errors, by abstract runs of _move_note: the destination is written before the source; a destination that cannot be written / a source that no longer holds the note give a non-zero status and remove nothing; both file operations write the page themselves on success; _to_done_note only changes the payload")
     run.rule("C10.R5", "inherited metadata is spliced in directly after the note's own ZID; the destination's rendering carries it in every move scenario (plain, closing, cancelling, same page, new page)")
+    run.rule("C10.R7", "a missing destination is created from ITS template: _move_note hands the creation to init_from_template (move scenario 'created from its template'), whose first-match / no-clobber / "
+             "exact-rendering scenarios (C16.R1-R3) are adopted")
     run.rule("C10.R6", "the text that lands in the destination is Note.to_string(): the renderer obligations C12.R1-R3 (kind character, priority for every live todo kind, derivable piece sequence) are adopted")
     from . import c12
 
@@ -401,6 +409,9 @@ def check(run: Run) -> None:
     c12.check(sub)
     run.floor("adopted renderer obligations", run.adopt(sub, ("C12.R1", "C12.R2", "C12.R3"), "C10.R6"), 8)
     move_scenarios(run, model)
+    from .c16 import init_scenarios
+
+    init_scenarios(run, model, rid_as="C10.R7")
     _tables(run, model)
     _order_and_errors(run, model)
     run.units = dict(functions=[F_ADD, F_DEL, F_MOVE, F_DONE, F_HIDDEN, F_MUTATES])
